@@ -241,4 +241,164 @@ Proof.
         apply in_or_app. right. apply in_map_iff. exists q. split; auto. now rewrite E.
 Qed.
 
+(** ** The executor's half, first part: what a poll of C02's executor does to the promise table
+    (appends promises that are not done, removes channel entries; Fut/Acct.v: [ac_proms],
+    [ac_chans], [ac_taken]) is, seen through the coupling, a sequence of [LCreate] and [LConsume]
+    steps of the LTS.  The request's promises are modelled by a flat program: every promise of
+    C02's table is a Go or Batch item without parent (the most permissive executor abstraction). *)
+
+Definition gob (k : kind) : bool := match k with KGo | KBatch _ => true | _ => false end.
+
+Definition flat_async : Prop :=
+  forall w it, lookup p w = Some it -> it_parent it = None /\ it_inner it = false /\ gob (it_kind it) = true.
+
+Hypothesis FLAT : flat_async.
+
+Lemma create_flat s w it :
+  lookup p w = Some it -> st_phase s = PPoll -> st_created s w = false ->
+  exists s', step fx p s (LCreate w) = Some s' /\ st_phase s' = PPoll /\
+             (forall x, st_created s' x = upd (st_created s) w true x) /\
+             (forall x, st_chan s' x = st_chan s x) /\ (forall x, st_taken s' x = st_taken s x).
+Proof.
+  intros L PH C. destruct (FLAT w it L) as [PA [_ GB]].
+  simpl. unfold do_create. rewrite PH, L, C. unfold parent_ready. rewrite PA. simpl.
+  destruct (it_kind it); try discriminate; eexists; (split; [reflexivity|]); simpl; rewrite ?PH; auto.
+Qed.
+
+Lemma creates_run : forall n c s m,
+  Inv p s -> Sim p s m -> st_phase s = PPoll ->
+  (forall x, st_created s x = true <-> x < c) -> c + n <= length (p_items p) ->
+  exists s' m', run fx p s (map LCreate (seq c n)) = Some s' /\ Inv p s' /\ Sim p s' m' /\
+                st_phase s' = PPoll /\ (forall x, st_created s' x = true <-> x < c + n) /\
+                (forall x, st_chan s' x = st_chan s x) /\ (forall x, st_taken s' x = st_taken s x).
+Proof.
+  induction n as [|n IH]; intros c s m IV SM PH CR LE.
+  - exists s, m. split; [reflexivity|]. split; [auto|]. split; [auto|]. split; [auto|].
+    split; [intro x; rewrite Nat.add_0_r; apply CR|]. split; auto.
+  - destruct (lookup p c) as [it|] eqn:L; [|unfold lookup in L; apply nth_error_None in L; lia].
+    assert (NCR0 : st_created s c = false).
+    { destruct (st_created s c) eqn:E; auto. apply CR in E. lia. }
+    destruct (create_flat s c it L PH NCR0) as [s1 [E [PH1 [A [B D]]]]].
+    destruct (step_preserves p WF BF fx s m (LCreate c) s1 IV SM E) as [m1 [_ [IV1 SM1]]].
+    destruct (IH (S c) s1 m1 IV1 SM1 PH1) as [s' [m' [R [IV' [SM' [PH' [A' [B' D']]]]]]]]; [|lia|].
+    + intro x. rewrite A. destruct (upd_cases (st_created s) c true x) as [[-> U]|[N U]]; rewrite U.
+      * split; [lia|auto].
+      * rewrite CR. lia.
+    + exists s', m'. cbn [seq map run]. rewrite E. split; [exact R|].
+      split; auto. split; auto. split; auto. split; [intro x; rewrite A'; lia|].
+      split; intro x; [rewrite B', B|rewrite D', D]; reflexivity.
+Qed.
+
+Lemma consume_flat s w r :
+  Inv p s -> st_phase s = PPoll -> st_chan s w = Some r ->
+  step fx p s (LConsume w) = Some (set_taken (set_chan s w None) w).
+Proof.
+  intros IV PH C.
+  assert (CR : st_created s w = true).
+  { destruct (st_created s w) eqn:E; auto. destruct (c_fresh p s IV w E) as [_ [X _]]. congruence. }
+  destruct (c_created p s IV w CR) as [it L]. destruct (FLAT w it L) as [_ [NI _]].
+  simpl. unfold do_consume. rewrite PH, L, C, NI. reflexivity.
+Qed.
+
+Lemma consumes_run : forall T s m,
+  Inv p s -> Sim p s m -> st_phase s = PPoll -> NoDup T -> (forall w, In w T -> st_chan s w <> None) ->
+  exists s' m', run fx p s (map LConsume T) = Some s' /\ Inv p s' /\ Sim p s' m' /\ st_phase s' = PPoll /\
+                (forall x, st_created s' x = st_created s x) /\
+                (forall x, st_chan s' x = if mem x T then None else st_chan s x) /\
+                (forall x, st_taken s' x = st_taken s x || mem x T).
+Proof.
+  induction T as [|w T IH]; intros s m IV SM PH ND F.
+  - exists s, m. split; [reflexivity|]. split; [auto|]. split; [auto|]. split; [auto|]. split; [auto|].
+    split; intro x; unfold mem; simpl; [reflexivity|now rewrite orb_false_r].
+  - inversion ND as [|? ? NI ND']; subst.
+    destruct (st_chan s w) as [r|] eqn:C; [|exfalso; apply (F w); [now left|auto]].
+    pose proof (consume_flat s w r IV PH C) as E.
+    destruct (step_preserves p WF BF fx s m (LConsume w) _ IV SM E) as [m1 [_ [IV1 SM1]]].
+    destruct (IH (set_taken (set_chan s w None) w) m1 IV1 SM1) as [s' [m' [R [IV' [SM' [PH' [A [B D]]]]]]]]; auto.
+    + intros x X. simpl. rewrite upd_other; [apply F; now right|]. intro; subst; tauto.
+    + exists s', m'. cbn [map run]. rewrite E. split; [exact R|].
+      split; auto. split; auto. split; auto. split; [intro x; rewrite A; reflexivity|]. split.
+      * intro x. rewrite B. simpl. unfold mem. simpl.
+        destruct (upd_cases (st_chan s) w None x) as [[-> U]|[N U]]; rewrite U.
+        -- rewrite Nat.eqb_refl. simpl. destruct (existsb (Nat.eqb w) T); reflexivity.
+        -- destruct (Nat.eqb_spec x w); [congruence|]. reflexivity.
+      * intro x. rewrite D. simpl. unfold mem. simpl.
+        destruct (upd_cases (st_taken s) w true x) as [[-> U]|[N U]]; rewrite U.
+        -- rewrite Nat.eqb_refl. simpl. now rewrite orb_true_r.
+        -- destruct (Nat.eqb_spec x w); [congruence|]. reflexivity.
+Qed.
+
+(** the promises a poll received: in the channels before, not after *)
+Definition taken_ids (st st' : ExecAsync.st) : list nat :=
+  filter (fun w => negb (mem w (map fst (ExecAsync.s_chans st'))))
+         (nodup Nat.eq_dec (map fst (ExecAsync.s_chans st))).
+
+Lemma ex_chan_mem (c : list (nat * bool)) w : (exists ok, In (w, ok) c) <-> In w (map fst c).
+Proof.
+  rewrite in_map_iff. split.
+  - intros [ok X]. exists (w, ok). auto.
+  - intros [[a b] [E X]]. simpl in E. subst. eauto.
+Qed.
+
+Theorem poll_is_creates_and_consumes st st' s m new :
+  K st s -> Inv p s -> Sim p s m -> st_phase s = PPoll ->
+  ExecAsync.s_proms st' = ExecAsync.s_proms st ++ new ->
+  (forall k pr, nth_error new k = Some pr ->
+     ExecAsync.p_id pr = length (ExecAsync.s_proms st) + k /\ ExecAsync.p_done pr = false) ->
+  (forall x, In x (ExecAsync.s_chans st') -> In x (ExecAsync.s_chans st)) ->
+  length (ExecAsync.s_proms st') <= length (p_items p) ->
+  exists s' m',
+    run fx p s (map LCreate (seq (length (ExecAsync.s_proms st)) (length new)) ++
+                map LConsume (taken_ids st st')) = Some s' /\
+    K st' s' /\ Inv p s' /\ Sim p s' m' /\ st_phase s' = PPoll.
+Proof.
+  intros KK IV SM PH EP NEW SUB LEN.
+  set (c := length (ExecAsync.s_proms st)) in *.
+  assert (LE : c + length new <= length (p_items p)) by (rewrite EP, app_length in LEN; exact LEN).
+  destruct (creates_run (length new) c s m IV SM PH (k_created st s KK) LE)
+    as [s1 [m1 [R1 [IV1 [SM1 [PH1 [A1 [B1 D1]]]]]]]].
+  assert (TF : forall w, In w (taken_ids st st') -> st_chan s1 w <> None).
+  { intros w X. apply filter_In in X as [X _]. apply nodup_In in X. rewrite B1.
+    apply (k_chans st s KK). now apply ex_chan_mem. }
+  assert (TND : NoDup (taken_ids st st')) by (apply NoDup_filter, NoDup_nodup).
+  destruct (consumes_run (taken_ids st st') s1 m1 IV1 SM1 PH1 TND TF)
+    as [s2 [m2 [R2 [IV2 [SM2 [PH2 [A2 [B2 D2]]]]]]]].
+  exists s2, m2. split; [apply run_app; eauto|]. split; [|auto].
+  assert (TIN : forall w, mem w (taken_ids st st') = true <->
+                          In w (map fst (ExecAsync.s_chans st)) /\ ~ In w (map fst (ExecAsync.s_chans st'))).
+  { intro w. rewrite mem_In. unfold taken_ids. rewrite filter_In, nodup_In, negb_true_iff. split.
+    - intros [X Y]. split; auto. now apply mem_false.
+    - intros [X Y]. split; auto. now apply mem_false. }
+  constructor.
+  - (* ids are positions *)
+    intros i pr N. rewrite EP in N. destruct (Nat.lt_ge_cases i c) as [LT|GE].
+    + rewrite nth_error_app1 in N by exact LT. apply (k_pid st s KK i pr N).
+    + rewrite nth_error_app2 in N by exact GE. destruct (NEW _ _ N) as [PI _]. fold c in PI. lia.
+  - intro w. rewrite A2, A1, EP, app_length. reflexivity.
+  - intros w pr N. rewrite EP in N. rewrite B2, D2, B1, D1.
+    destruct (Nat.lt_ge_cases w c) as [LT|GE].
+    + rewrite nth_error_app1 in N by exact LT. pose proof (k_done st s KK w pr N) as DQ.
+      destruct (mem w (taken_ids st st')) eqn:MT.
+      * apply TIN in MT as [X _]. apply ex_chan_mem in X. apply (k_chans st s KK) in X.
+        rewrite orb_true_r. split; auto. intros _. apply DQ. auto.
+      * rewrite orb_false_r. exact DQ.
+    + rewrite nth_error_app2 in N by exact GE. destruct (NEW _ _ N) as [_ DN]. rewrite DN.
+      assert (NCR : st_created s w = false).
+      { destruct (st_created s w) eqn:E; auto. apply (k_created st s KK) in E. fold c in E. lia. }
+      destruct (c_fresh p s IV w NCR) as [_ [CN [TN _]]]. rewrite CN, TN.
+      assert (MT : mem w (taken_ids st st') = false).
+      { destruct (mem w (taken_ids st st')) eqn:E; auto. apply TIN in E as [X _].
+        apply ex_chan_mem in X. apply (k_chans st s KK) in X. congruence. }
+      rewrite MT. simpl. split; [discriminate|]. intros [X|X]; [congruence|discriminate].
+  - intro w. rewrite ex_chan_mem, B2, B1.
+    destruct (mem w (taken_ids st st')) eqn:MT.
+    + apply TIN in MT as [_ Y]. split; [tauto|congruence].
+    + split.
+      * intro X. apply (k_chans st s KK). apply ex_chan_mem. apply in_map_iff in X as [[a b] [E X]].
+        simpl in E; subst a. apply in_map_iff. exists (w, b). split; auto.
+      * intro X. apply (k_chans st s KK) in X. apply ex_chan_mem in X.
+        destruct (in_dec Nat.eq_dec w (map fst (ExecAsync.s_chans st'))) as [Y|Y]; auto.
+        assert (Z : mem w (taken_ids st st') = true) by (apply TIN; auto). congruence.
+Qed.
+
 End Joint.
